@@ -90,6 +90,13 @@ def formula_of(e: ast.AST):
             parts.append(formula_of(ast.Compare(left, [op], [right])))
             left = right
         return f_and(*parts)
+    if isinstance(e, ast.Compare) and len(e.ops) == 1 and isinstance(e.left, ast.Constant) and \
+            isinstance(e.comparators[0], ast.Constant) and \
+            isinstance(e.ops[0], (ast.Is, ast.IsNot, ast.Eq, ast.NotEq)):
+        # two literals (a specialised optional parameter: `None is None`)
+        a, b = e.left.value, e.comparators[0].value
+        same = (a is b or (type(a) is type(b) and a == b))
+        return TRUE if same == isinstance(e.ops[0], (ast.Is, ast.Eq)) else FALSE
     if isinstance(e, ast.Compare) and isinstance(e.ops[0], (ast.IsNot, ast.NotEq, ast.NotIn)):
         pos = {ast.IsNot: ast.Is, ast.NotEq: ast.Eq, ast.NotIn: ast.In}[type(e.ops[0])]()
         return f_not(('atom', ast.Compare(e.left, [pos], e.comparators)))
